@@ -6,6 +6,8 @@ import os
 import shutil
 import sys
 
+sys.path.insert(0, os.path.dirname(os.path.abspath(__file__)))
+
 SLUGS = {
     "C01_change1": ("ref-sort-key-typo", "get_locks sorts by the address of the vector slot instead of the lock (one dropped `*`): Ref collections lock in listing order and Ref::try_new misses non-adjacent duplicates", "two Ref collections listing shared locks in opposite orders + the interleaving; or a non-adjacent duplicate"),
     "C01_change2": ("retry-read-rollback-unlocks-exclusive", "RetryingLockCollection::raw_read rolls back with unlock_all_writes", "a retrying read that has to retry while another reader holds an already-acquired member, then a writer"),
@@ -100,19 +102,39 @@ SLUGS3 = {
     "C17_change1": ("poisonable-debug-leaks-probe-when-poisoned", "Poisonable Debug probes the inner lock with a try and returns early without releasing when the wrapper is poisoned", "formatting a poisoned, currently free Poisonable"),
 }
 
+SLUGS4 = {
+    "C01_change1": ("retry-first-index-shared-between-threads", "RetryingLockCollection keeps the index of the member it blocks on in an AtomicUsize field of the collection instead of a local: two threads inside lock() of the same instance overwrite each other's index, one releases a lock it never took and then waits for a lock it holds itself", "one retrying collection instance shared by >= 2 threads, >= 2 members, blocking API, a refused try in the window"),
+    "C02_change1": ("mutex-zero-sized-payload-fast-path", "Mutex::raw_write / raw_try_write / raw_unlock_write return immediately when the payload is zero-sized ('nothing to race on'): Mutex<()> never excludes anyone", "a Mutex whose payload type is zero-sized and a second contender"),
+    "C03_change1": ("poisonable-try-read-acquires-twice", "Poisonable::try_read calls self.read(key) (blocking, acquires again) instead of self.read_guard(key) after the successful raw_try_read: shared access is taken twice and released once", "Poisonable over a Sharable, guard-returning try_read that succeeds, then any exclusive acquisition"),
+    "C04_change1": ("owned-read-uses-try-and-ignores-result", "OwnedLockCollection::read calls raw_try_read() and discards the bool: when refused it returns a guard with nothing held", "owned collection used directly, blocking guard read, another thread holding a member exclusively at that moment"),
+    "C05_change1": ("rwlock-try-read-gives-back-unacquired-share", "RwLock::raw_try_read re-checks the kill flag after the raw attempt and calls raw_unlock_read() whether or not the attempt succeeded", "read try path, refused attempt, the lock killed by another thread's panicking raw op between the early check and the re-check"),
+    "C06_change1": ("threadkey-get-succeeds-while-panicking", "ThreadKey::get hands out a key whenever thread::panicking(), even if the thread's key is alive", "a destructor that calls ThreadKey::get() during an unwind while the thread's key is still alive further up the stack"),
+    "C07_change1": ("retry-dup-check-head-tail-split", "RetryingLockCollection's contains_duplicates compares the first four addresses pairwise and only the rest through the hash set, never head against tail", "a duplicate whose first occurrence is among the first four flattened locks and whose second is at position five or later"),
+    "C08_change1": ("ref-try-new-stores-descending-order", "RefLockCollection::try_new builds its list by popping the sorted vector: the stored order is descending", "a try_new-built ref collection used directly against a boxed / Ref::new collection over the same locks"),
+    "C09_change1": ("retry-read-guard-uses-ordered-read", "RetryingLockCollection::read (guard API) takes its members with blocking ordered_read in listing order instead of raw_read", "retrying collection, blocking guard read, >= 2 members, a writer on a non-first member"),
+    "C10_change1": ("poison-flag-stored-not-set", "PoisonRef::drop calls a new PoisonFlag::done(panicking) that stores the boolean: any guard released without panicking un-poisons the wrapper", "poison, then a guard-based acquisition released normally without clear_poison, then observe"),
+    "C11_change1": ("collection-scoped-try-write-swallows-panic", "utils::scoped_try_write catches the closure's panic, releases, and returns Err(key) instead of resuming the panic", "collection scoped_try_lock that succeeds with a panicking closure"),
+    "C12_change1": ("recover-from-panic-swallows-release-panic", "attempt_to_recover_{writes,reads}_from_panic wrap unlock_all_* in catch_unwind and discard the result; RetryingLockCollection::raw_try_* use them for the ordinary rollback, so a panicking release there is swallowed", "retrying try_lock / try_read refused at index >= 1 with a panicking release of an earlier member"),
+    "C13_change1": ("boxed-try-contention-hint", "BoxedLockCollection remembers which member refused the last try and probes it first next time; the rollback releases only the prefix, so a probed member above the refusing index stays held", "two refused attempts on the same boxed collection: first refused by index j >= 1, second by a lower index while j is free"),
+    "C14_change1": ("lockguard-into-iterator-by-value", "impl IntoIterator for LockGuard<Guard> returns self.guard.into_iter() and drops the key field", "iterating a collection guard of an array / Vec / boxed slice by value, then ThreadKey::get()"),
+    "C15_change1": ("boxed-sync-for-send-child", "unsafe impl<L: Send> Sync for BoxedLockCollection<L> (was L: Sync)", "owning boxed collection over RwLock<Cell<_>> shared by reference between threads"),
+    "C16_change1": ("array-get-mut-index-wrap", "[T; N]::get_mut indexes with i & (N - 1): for N == 3 position 0 is returned twice and position 1 never", "get_mut on a collection over an array of exactly three locks"),
+    "C17_change1": ("debug-helper-returns-before-unlock", "Mutex/RwLock Debug share a helper that try-locks, writes with `?` and then unlocks by hand: a failing formatter / panicking payload Debug leaves the lock held", "formatting a free lock into a sink that returns Err (or a payload whose Debug fails) at that moment"),
+}
+
 ROOT = "/verif/seeded"
 
 
 def main():
     os.makedirs(ROOT, exist_ok=True)
-    items = [(1, k, v) for k, v in sorted(SLUGS.items())] + [(2, k, v) for k, v in sorted(SLUGS2.items())] + [(3, k, v) for k, v in sorted(SLUGS3.items())]
+    items = [(1, k, v) for k, v in sorted(SLUGS.items())] + [(2, k, v) for k, v in sorted(SLUGS2.items())] + [(3, k, v) for k, v in sorted(SLUGS3.items())] + [(4, k, v) for k, v in sorted(SLUGS4.items())]
     for rnd, key, (slug, what, needs) in items:
         prop, ch = key.split("_")
-        src = {1: "/tmp/seed-%s/%s", 2: "/tmp/seed2-%s/%s", 3: "/tmp/seed3-%s/%s"}[rnd] % (prop, ch)
+        src = {1: "/tmp/seed-%s/%s", 2: "/tmp/seed2-%s/%s", 3: "/tmp/seed3-%s/%s", 4: "/tmp/seed4-%s/%s"}[rnd] % (prop, ch)
         if not os.path.isdir(src):
             print("missing", src)
             continue
-        sid = "%s-%s-%s" % (prop, str(int(ch[-1]) + {1: 0, 2: 2, 3: 4}[rnd]), slug)
+        sid = "%s-%s-%s" % (prop, str(int(ch[-1]) + {1: 0, 2: 2, 3: 4, 4: 5}[rnd]), slug)
         d = os.path.join(ROOT, sid)
         os.makedirs(d, exist_ok=True)
         shutil.copy(os.path.join(src, "patch.diff"), os.path.join(d, "patch.diff"))
@@ -123,7 +145,7 @@ def main():
         if os.path.exists(os.path.join(src, "README.md")):
             shutil.copy(os.path.join(src, "README.md"), os.path.join(d, "AUTHOR_README.md"))
         verify = {}
-        vf = {1: "/tmp/verify-results/%s.json", 2: "/tmp/verify2-results/%s.json", 3: "/tmp/verify3-results/%s.json"}[rnd] % key
+        vf = {1: "/tmp/verify-results/%s.json", 2: "/tmp/verify2-results/%s.json", 3: "/tmp/verify3-results/%s.json", 4: "/tmp/verify4-results/%s.json"}[rnd] % key
         if os.path.exists(vf):
             try:
                 verify = json.load(open(vf))
@@ -132,7 +154,7 @@ def main():
             except Exception:
                 pass
         detect = {}
-        df = {1: "/tmp/detect/results/%s.json", 2: "/tmp/detect/results2/%s.json", 3: "/tmp/detect/results3/%s.json"}[rnd] % key
+        df = {1: "/tmp/detect/results/%s.json", 2: "/tmp/detect/results2/%s.json", 3: "/tmp/detect/results3/%s.json", 4: "/tmp/detect/results4/%s.json"}[rnd] % key
         if os.path.exists(df):
             try:
                 detect = json.load(open(df))
@@ -140,7 +162,7 @@ def main():
                 pass
         # final run of the property's own check with the committed machinery, on /repo itself
         final = {}
-        ff = {1: "/tmp/detect/final/%s.json", 2: "/tmp/detect/final2/%s.json", 3: "/tmp/detect/final3/%s.json"}[rnd] % key
+        ff = {1: "/tmp/detect/final/%s.json", 2: "/tmp/detect/final2/%s.json", 3: "/tmp/detect/final3/%s.json", 4: "/tmp/detect/final4/%s.json"}[rnd] % key
         if os.path.exists(ff):
             try:
                 final = json.load(open(ff))
@@ -149,6 +171,15 @@ def main():
         for p_, r_ in final.items():
             detect[p_] = r_
         caught = sorted(p for p, r in detect.items() if r.get("exit") == 1)
+        # rounds 3 and 4: the own check was first run against the change before anybody read the
+        # author's description; that first result is kept next to the final one
+        first = None
+        f1 = "/tmp/detect/first%d/%s.json" % (rnd, key)
+        if os.path.exists(f1):
+            try:
+                first = json.load(open(f1)).get(prop)
+            except Exception:
+                pass
         meta = dict(
             id=sid,
             breaks_property=prop,
@@ -163,28 +194,15 @@ def main():
             detection=dict(
                 how="own property: `git -C /repo apply patch.diff`, `./check %s --tier quick`, `git -C /repo checkout -- .` (lib/seedtest.py detect) with the committed machinery; other properties: the same procedure on an isolated copy of /repo + /verif during the bulk run (an earlier revision of the machinery; the Miri-heavy checks C02/C14/C15/C16 were only run for their own changes)" % prop,
                 own_check_final=final.get(prop),
+                first_measured_run=first,
                 caught_by=caught,
                 per_check={p: dict(exit=r.get("exit"), rules=r.get("rules"), wall_s=r.get("wall")) for p, r in sorted(detect.items())},
             ),
         )
         json.dump(meta, open(os.path.join(d, "meta.json"), "w"), indent=1)
     print("seeded entries:", len(os.listdir(ROOT)))
-    # markdown table for DESIGN.md §10.3
-    rows = []
-    for sid in sorted(os.listdir(ROOT)):
-        mp = os.path.join(ROOT, sid, "meta.json")
-        if not os.path.exists(mp):
-            continue
-        m = json.load(open(mp))
-        own = m["breaks_property"]
-        caught = m["detection"]["caught_by"]
-        own_rules = (m["detection"]["per_check"].get(own) or {}).get("rules") or []
-        rows.append("| `%s` | %s | %s | %s | %s |" % (
-            sid, m["change"].replace("|", "/"), "**yes**" if own in caught else "NO",
-            ", ".join(r.replace("rule=", "") for r in own_rules[:3]), ", ".join(c for c in caught if c != own) or "-"))
-    with open("/verif/seeded/TABLE.md", "w") as f:
-        f.write("| seeded change | what it does | caught by its own property's check | rules that fired there | also caught by |\n|---|---|---|---|---|\n")
-        f.write("\n".join(rows) + "\n")
+    import redetect
+    redetect.table()
 
 
 if __name__ == "__main__":
